@@ -446,6 +446,9 @@ func checkLoopSkipsOnlyNil(r *Run, p *Program, rule string, f *ssa.Function) {
 	w.From()
 	bad := false
 	for _, b := range f.Blocks {
+		if !sameCycle(b, first.Block()) {
+			continue
+		}
 		for k := range b.Succs {
 			c := edgeCond(b, k)
 			if c == nil || !w.Visited[b.Instrs[len(b.Instrs)-1]] {
